@@ -9,14 +9,14 @@ import (
 
 // PassSpec describes one analysis pass of coca: how a unit (file, history, graph) is started and what runs per unit.
 type PassSpec struct {
-	Name     string   `json:"name"`
-	Props    []string `json:"props"`
-	Kind     string   `json:"kind"`     // "listener" | "function"
-	Entry    []string `json:"entry"`    // unit entry sequence, in driver order (constructor, setters) / the entry function
-	Listener string   `json:"listener"` // rel/pkg.Type for listener passes
-	Grammar  string   `json:"grammar"`  // java|python|groovy
-	Start    string   `json:"start"`    // grammar start rule
-	Walk     string   `json:"walk"`     // callee name that runs the unit body in the driver ("Walk")
+	Name       string   `json:"name"`
+	Props      []string `json:"props"`
+	Kind       string   `json:"kind"`        // "listener" | "function"
+	Entry      []string `json:"entry"`       // unit entry sequence, in driver order (constructor, setters) / the entry function
+	Listener   string   `json:"listener"`    // rel/pkg.Type for listener passes
+	Grammar    string   `json:"grammar"`     // java|python|groovy
+	Start      string   `json:"start"`       // grammar start rule
+	Walk       string   `json:"walk"`        // callee name that runs the unit body in the driver ("Walk")
 	Drivers    []string `json:"drivers"`     // restrict the driver functions considered (default: every caller of the constructor)
 	EpochRoots []string `json:"epoch_roots"` // entry points from which stale-epoch reads are searched (default: every root of the program)
 	// Accepted: globals whose cross-unit value is provably irrelevant for a reason outside rules 1-5; each with the
